@@ -612,3 +612,16 @@ print('NOT-REPRODUCED'); sys.exit(0)
 '''
 
 PROBES = [("an operation refused up front inside a batch costs nothing that is queued", REFUSED_IN_BATCH_REPLAY)]
+
+
+# a value that arrives through a reference is delivered inside edit_constant and _syncing, both of which
+# undo themselves on every exit (own contracts): a delivery that is refused, or whose watcher raises, leaves
+# constants locked and nothing marked as being synced (`_sync_refs` is verified for C08)
+_c05_base_sync = contracts
+
+
+def contracts():
+    from contracts import c08 as _c08
+    c = _c08.sync_refs_contract(2)
+    c.prop = PROP
+    return _c05_base_sync() + [c]
